@@ -20,6 +20,7 @@ Definition history_oracle (input o : json) : option string :=
   else if negb (g "decoy_equals_real" =? 0)%N then Some "a decoy coincides with a real digest"
   else if negb (g "decoy_count_violations" =? 0)%N then Some "the number of decoys is outside [1, max]"
   else if negb (g "decoy_form_violations" =? 0)%N then Some "a decoy does not have the form of a real digest"
+  else if negb (g "decoys_derived_from_published_material" =? 0)%N then Some "a decoy is the hash of another digest-list entry, of a disclosure or of a salt: decoys can be told from real digests by hashing what is published"
   else
     let seen := map numN (jlist (jget "lists_seen" o)) in
     let inorder := map numN (jlist (jget "lists_in_marking_order" o)) in
